@@ -17,6 +17,8 @@ def sh(cmd, cwd=None, timeout=3600):
 wt = "/tmp/seedchk/%s" % sid
 sh("git -C /repo worktree remove --force %s" % wt); shutil.rmtree(wt, ignore_errors=True)
 rc, out = sh("git -C /repo worktree add -q --detach %s HEAD" % wt)
+old_meta = json.load(open(os.path.join(dst, "meta.json"))) if os.path.exists(os.path.join(dst, "meta.json")) else {}
+PRESERVE = ("summary", "before_strengthening", "needs_to_manifest")
 meta = {"seed": sid, "breaks_property": props[0], "checked_properties": props, "repo_commit": sh("git -C /repo log --format=%h -1")[1].strip()}
 try:
     shutil.copy(os.path.join(dst, "seed_demo.rs"), os.path.join(wt, "tests", "seed_demo.rs"))
@@ -51,6 +53,8 @@ rc, out = sh("git -C /repo status --porcelain")
 assert out.strip() == "", "repo not clean"
 rc, out = sh("git -C /repo apply %s" % os.path.join(dst, "patch.diff"))
 meta["check_results"] = {}
+for k in PRESERVE:
+    if k in old_meta: meta[k] = old_meta[k]
 try:
     for pr in props:
         t0 = time.time()
